@@ -194,6 +194,10 @@ def verify(contract, name, timeout_s=10.0, n_selfcheck=60, seed=0, gen_concrete=
                                         check=getattr(contract, "canary_native", None))
                 if found is not None:
                     ok, detail = True, f"witness {found['args']!r} -> {found['outcome']!r} (bounded search)"
+                elif getattr(contract, "native_search", None):
+                    found = contract.native_search(label.split("/")[-1], canary=True)
+                    if found is not None:
+                        ok, detail = True, f"witness {found['args']!r} -> {found['outcome']!r} (native search over concrete instances)"
             out.append(ObResult(name=f"{name}/canary/{label}", status=R.CANARY_OK if ok else R.FAULT,
                                 detail=detail if ok else "canary clause was NOT refuted with a natively confirmed witness",
                                 clause="(deliberately false) " + label, **common))
@@ -271,6 +275,9 @@ def _handle_refutation(contract, eng, res, label, sat):
         # bounded search for a concrete failing input (no invariants, small concrete lengths);
         # for a loop obligation any post clause failing on the real code is the witness
         confirmed = _bounded_search(contract, None if is_loop_ob else key)
+    if confirmed is None and getattr(contract, "native_search", None):
+        # contracts over uninterpreted callees: look for a failing CONCRETE instance (concrete callees) on the real code
+        confirmed = contract.native_search(None if is_loop_ob else key, canary=False)
     if confirmed is not None:
         res.status = R.REFUTED
         res.witness = dict(args=repr(confirmed["args"]), outcome=repr(confirmed["outcome"]))
